@@ -9,7 +9,9 @@
 (*                      recvIntact (what it read is a prefix of the        *)
 (*                      client's stream), sawEOF, closedAfterReturn,       *)
 (*                      drained (it kept reading until EOF/error),         *)
-(*                      abandoned (opened by a dial attempt given up)      *)
+(*                      abandoned (opened by a dial attempt given up),     *)
+(*                      opened (the upstream server accepted a connection) *)
+(*   t.err              error returned by the handler ("" if none)         *)
 (*   t.crecv[u]         n, intact: what the client read of upstream u's    *)
 (*                      bytes is a prefix of what u sent                   *)
 (*   t.ceof             the client saw end of stream                       *)
@@ -20,8 +22,14 @@ EXTENDS Integers, Sequences, FiniteSets, TLC
 
 \* connections opened by a dial attempt that was given up (a later peer of the same upstream refused) carry no
 \* data; they only have to be closed (P5)
-U(t) == { u \in DOMAIN t.ups : ~t.ups[u].abandoned }
-NoReset(t) == t.cend # "rst" /\ \A u \in U(t) : t.ups[u].end # "rst"
+\* an upstream server that never accepted a connection (the handler's dial failed and it returned the error) has
+\* nothing to receive or to be closed
+U(t) == { u \in DOMAIN t.ups : ~t.ups[u].abandoned /\ t.ups[u].opened }
+\* nobody aborted: no reset - and the client did not CLOSE (both directions) while upstream bytes were still unread
+\* on its side, which TCP turns into a reset of the connection
+NoReset(t) == /\ t.cend # "rst" /\ \A u \in U(t) : t.ups[u].end # "rst"
+              /\ t.err = ""                 \* the handler did not give up on a dial error
+              /\ ~(t.cend = "close" /\ \E u \in U(t) : t.crecv[u].n < t.ups[u].sent)
 
 \* P1: each upstream reads the client's stream exactly once, in order, from its first
 \*     unconsumed byte; everything, when nobody aborted and it read to the end
@@ -37,7 +45,7 @@ P3(t) == (t.cend = "fin" /\ NoReset(t)) => \A u \in U(t) : t.ups[u].drained => t
 \* P4: when every upstream has finished sending, the client observes end of stream
 P4(t) == (NoReset(t) /\ t.cend = "fin" /\ t.cdrained) => t.ceof
 \* P5: then the handler returns and every upstream connection it opened is closed
-P5(t) == t.returned /\ \A u \in DOMAIN t.ups : t.ups[u].closedAfterReturn
+P5(t) == t.returned /\ \A u \in DOMAIN t.ups : t.ups[u].opened => t.ups[u].closedAfterReturn
 
 ProxyViolations(t) ==
   (IF P1(t) THEN {} ELSE {"P1 an upstream did not receive the client's stream exactly once in order"})
